@@ -96,6 +96,11 @@ def cases(draw, ctx, layouts):
         boxes[0], classes[0] = [0, n[0]], "whole"
     case["box"] = boxes
     case["classes"] = classes
+    if kind == "valid" and draw(st.integers(0, 2)) == 0:
+        # the cropper is an SgzReader: it may have served other calls before it is asked to crop
+        case["before"] = draw(st.lists(st.sampled_from(["get_tracefield_values", "gen_trace_header", "read_inline", "get_trace",
+                                                        "read_variant_headers_one"]), min_size=1, max_size=3))
+        case["bu"] = [draw(st.floats(0, 1, exclude_max=True)) for _ in range(3)]
     if kind == "valid" and draw(st.integers(0, 3)) == 0:
         # the same cropper object writes a second file (another box): both must be right
         b2 = [draw(axis_box(n[k], bs[k]))[0] for k in range(3)]
@@ -146,6 +151,22 @@ def run_case(case, ctx):
     out2, box2, exc2 = os.path.join(d, "crop2.sgz"), None, None
     cropper = SgzCropper(path)
     try:
+        for k, b in enumerate(case.get("before", [])):
+            u = case["bu"][k]
+            try:
+                if b == "get_tracefield_values":
+                    cropper.get_tracefield_values(T.owners[int(u * len(T.owners))])
+                elif b == "read_variant_headers_one":
+                    import segyio
+                    cropper.read_variant_headers(tracefields=[segyio.tracefield.TraceField(T.owners[int(u * len(T.owners))])])
+                elif b == "gen_trace_header":
+                    cropper.gen_trace_header(int(u * T.n_tr))
+                elif b == "read_inline":
+                    cropper.read_inline(int(u * T.n_il))
+                elif b == "get_trace":
+                    cropper.get_trace(int(u * T.n_tr))
+            except Exception as e:
+                raise Violation(f"earlier-call-failed:{b}", f"{b} on the cropper object: {type(e).__name__}: {e}")
         try:
             if case["by"] == "index":
                 cropper.write_cropped_file_by_indexes(out, box[0], box[1], box[2])
@@ -210,7 +231,7 @@ def run_case(case, ctx):
     nontriv = unaligned or partial or len(T.owners) >= 3
     return {"sig": [fam, case["classes"], case["by"], len(T.owners), partial] if nontriv else None,
             "labels": labels + (["unaligned"] if unaligned else []) + (["partial-end"] if partial else [])
-            + (["cropper-reused"] if box2 is not None else [])}
+            + (["cropper-reused"] if box2 is not None else []) + ["before:" + b for b in case.get("before", [])]}
 
 
 def shard_main(ctx):
